@@ -49,7 +49,9 @@ def batches : Nat → List H → List (Message B H)
 def expected : Sent B H → List (Message B H)
   | .plain t v _ => [.body t v]
   | .unknown t _ => [.unknown t]
-  | .headers items => batches items.length (items.map (·.1))
+  | .headers items =>
+    -- an empty list is delivered as one empty batch (since /repo 11bd5ac16)
+    if items.isEmpty then [.headers [] 0] else batches items.length (items.map (·.1))
   | .archive t v _ att => .body t v :: attEvents (att.length + 1) att
 
 /-- the handler asks for an attachment only after a decoded body -/
@@ -69,7 +71,7 @@ def SentWF (env : Env B H) (attach : Message B H → Option Nat) : Sent B H → 
   | .unknown t raw =>
     isKnownType t = false ∧ raw.length ≤ maxLen env.net t ∧ raw.length < 2^64
   | .headers items =>
-    items ≠ [] ∧ items.length < 2^16 ∧ (headersBody items).length ≤ maxLen env.net T_Headers ∧
+    items.length < 2^16 ∧ (headersBody items).length ≤ maxLen env.net T_Headers ∧
     (headersBody items).length < 2^64 ∧ ∀ it ∈ items, ItemWF env it
   | .archive t v raw att =>
     isDispatched t = true ∧ raw.length ≤ maxLen env.net t ∧ raw.length < 2^64 ∧
